@@ -2,7 +2,12 @@
 
 package sarama
 
-import "sync"
+import (
+	"reflect"
+	"sort"
+	"strconv"
+	"sync"
+)
 
 // In-package access for the C16 correspondence harness (added by -overlay; nothing is written to the repository).
 
@@ -139,4 +144,66 @@ func (m *VerifC16SwapMetadata) For(reqBody versionedDecoder) encoderWithHeader {
 	cur := m.cur
 	m.mu.Unlock()
 	return cur.For(reqBody)
+}
+
+// ---- local trace validation of the broker worker (brokerProducer.run): what the hook points expose ----
+
+// VerifC16BPState is the broker worker's own state as seen at a hook point (read on the worker's goroutine).
+type VerifC16BPState struct {
+	BP, Producer uintptr
+	Count, Bytes int
+	Armed, Fired bool     // bp.timer != nil, bp.timerFired
+	Keys         []string // "topic/partition" of the partition sets in the buffer (sorted)
+	Ns           []int    // number of messages of each
+}
+
+func VerifC16BPSnapshot(x interface{}) (VerifC16BPState, bool) {
+	bp, ok := x.(*brokerProducer)
+	if !ok || bp == nil {
+		return VerifC16BPState{}, false
+	}
+	s := VerifC16BPState{
+		BP: reflect.ValueOf(bp).Pointer(), Producer: reflect.ValueOf(bp.parent).Pointer(),
+		Count: bp.buffer.bufferCount, Bytes: bp.buffer.bufferBytes, Armed: bp.timer != nil, Fired: bp.timerFired,
+	}
+	n := map[string]int{}
+	for topic, parts := range bp.buffer.msgs {
+		for p, set := range parts {
+			k := topic + "/" + strconv.Itoa(int(p))
+			s.Keys = append(s.Keys, k)
+			n[k] = len(set.msgs)
+		}
+	}
+	sort.Strings(s.Keys)
+	for _, k := range s.Keys {
+		s.Ns = append(s.Ns, n[k])
+	}
+	return s, true
+}
+
+// VerifC16MsgInfo: identity, Metadata and internal flags (1 = syn, 2 = fin) of a message passed to a hook point.
+func VerifC16MsgInfo(x interface{}) (ptr uintptr, meta interface{}, flags int, ok bool) {
+	m, ok := x.(*ProducerMessage)
+	if !ok || m == nil {
+		return 0, nil, 0, false
+	}
+	return reflect.ValueOf(m).Pointer(), m.Metadata, int(m.flags), true
+}
+
+// VerifC16ProducerPtr identifies an AsyncProducer (matches VerifC16BPState.Producer).
+func VerifC16ProducerPtr(p AsyncProducer) uintptr {
+	if ap, ok := p.(*asyncProducer); ok {
+		return reflect.ValueOf(ap).Pointer()
+	}
+	return 0
+}
+
+// VerifC16NeedsRetry evaluates bp.needsRetry(msg) != nil from the worker's state (on the worker's goroutine).
+func VerifC16NeedsRetry(bpArg, msgArg interface{}) bool {
+	bp, ok1 := bpArg.(*brokerProducer)
+	m, ok2 := msgArg.(*ProducerMessage)
+	if !ok1 || !ok2 || bp == nil || m == nil {
+		return false
+	}
+	return bp.needsRetry(m) != nil
 }
